@@ -40,7 +40,9 @@ class AlgDomain(EventsMixin, Domain):
     return UNKNOWN
 
   def const(self, value, node=None):
-    if isinstance(value, bool) or value is None:
+    if value is None:
+      return ('nonev',)
+    if isinstance(value, bool):
       return UNKNOWN
     if isinstance(value, (int, float)):
       try:
@@ -50,10 +52,23 @@ class AlgDomain(EventsMixin, Domain):
     return UNKNOWN
 
   def join(self, a, b):
-    return a if a == b else UNKNOWN
+    if a == b:
+      return a
+    # None is not a matrix: where the value is used as one it is the other
+    if a == ('nonev',):
+      return b
+    if b == ('nonev',):
+      return a
+    return UNKNOWN
 
   def fitted_read(self, cls, name, node, st):
-    return self.fitted.get(name, UNKNOWN)
+    if name in self.fitted:
+      return self.fitted[name]
+    if name in ('preprocessor_', 'n_features_in_', 'classes_'):
+      return UNKNOWN
+    # any other stored attribute: an opaque matrix symbol (a view that
+    # returns it is not a function of the current components_)
+    return Poly.sym('self.' + name, 'mat')
 
   def hyperparam(self, cls, name, node):
     return self.hyperparam_value(name)
@@ -259,6 +274,21 @@ class AlgDomain(EventsMixin, Domain):
     d = v.d
     if isinstance(d, Tup):
       return self._tup_index(d, idx)
+    if isinstance(d, Poly) and d.kind == 'rows' and len(idx) == 1 and \
+            idx[0][0] == 'slice' and idx[0][3] is not None and d.terms:
+      lo = idx[0][1].const() if idx[0][1] is not None else 0
+      step = idx[0][3].const()
+      firsts = set(m[0] for m in d.terms if m)
+      if len(firsts) == 1 and idx[0][2] is None and isinstance(lo, int) and \
+              isinstance(step, int):
+        a0 = next(iter(firsts))
+        if a0[0] == 's' and a0[1].startswith('IL('):
+          base, slots = a0[1][3:-1].split(';')
+          slots = [int(x) for x in slots.split(',')]
+          if step == len(slots) and 0 <= lo < step:
+            na = A('%s[%d]' % (base, slots[lo]), 'rows')
+            return Poly({(na,) + m[1:]: c for m, c in d.terms.items()},
+                        'rows')
     if isinstance(d, (Vec, Poly)) and node is not None and \
             isinstance(node, ast.Subscript):
       parts = node.slice.elts if isinstance(node.slice, ast.Tuple) \
@@ -427,9 +457,12 @@ class AlgDomain(EventsMixin, Domain):
     if len(args) != 2:
       return UNKNOWN
     a, b = args[0].d, args[1].d
-    if isinstance(b, Vec) and self._num(a) is not None:
+    if isinstance(b, (Vec, Lin)) and self._num(a) is not None and \
+            not (isinstance(b, Lin) and b.is_const()):
       a, b = b, a
     n = self._num(b)
+    if isinstance(a, Lin) and not a.is_const() and n is not None:
+      return Lin({('maxc', a, n): 1})
     if isinstance(a, Vec) and n is not None:
       if n == 0:
         return Vec(SExpr.base(('max0', a.sx.key())), a.orient)
@@ -585,6 +618,11 @@ class AlgDomain(EventsMixin, Domain):
 
   def method_call(self, recv, name, args, kwargs, node, st, eng):
     d = recv.d
+    if name == 'reshape' and isinstance(d, Tup) and d.slots is not None and \
+            len(args) == 2:
+      # (n, t, d) -> (t*n, d): rows of the tuples interleaved slot by slot
+      return Poly({(A('IL(%s;%s)' % (d.base, ','.join(map(str, d.slots))),
+                      'rows'),): Fraction(1)}, 'rows')
     if name in ('max', 'min', 'std', 'ptp') and not args and \
             'axis' not in kwargs:
       return self._reduce(name, d)
@@ -668,6 +706,9 @@ class AlgDomain(EventsMixin, Domain):
   def x_numpy_unique(self, args, kwargs, node, st):
     a = args[0].d if args else UNKNOWN
     ax = self._axis(kwargs, args, 99)
+    if isinstance(a, Tup) and ax == 0 and \
+            not any(k.startswith('return_') for k in kwargs):
+      return Tup('distinct-tuples(%s)' % a.base, a.slots)
     if isinstance(a, Poly) and a.kind == 'rows' and ax == 0 and \
             not any(k.startswith('return_') for k in kwargs):
       n = self._name_of(a)
